@@ -146,10 +146,11 @@ def r1_positions(repo):
     ok = False
     if len(look) == 1:
         nm = look[0].targets[0].id
-        last = g.node.body[-1]
-        ok = isinstance(last, ast.Return) and src(last.value) == nm
+        back = [r for r in rets if r.value is not None and src(r.value) == nm]
+        # the looked-up type is what is returned whenever the lookup succeeded (and the condition lets it through)
+        ok = len(back) == 1 and ("%s is None" % nm, False) in [(src(t), p) for t, p in flat_guards(back[0])]
     obs.append(Ob("C07-R1", "position:type-variable-lookup", _w(g), ok,
-                  "a type variable bound by the map must be replaced by type_map.get(etype) (returned at the end)"))
+                  "a type variable bound by the map must be replaced by type_map.get(etype): that value is returned when the lookup succeeded"))
     # ... and the key of that lookup is the type as it was given: a variable rebuilt with a substituted bound is a
     # different key (TypeParameter equality includes the bound) and misses its own entry
     okk, kd = False, "no lookup"
